@@ -1458,8 +1458,16 @@ def _avoid_ambiguous(model, ops):
     # nothing is inserted at the end of a block whose successor was deleted
     # with retarget_to_proxy earlier (its fallthrough / return site is the
     # proxy; what code placed in between means for them is not specified)
+    tokmap = {t.id: t for _, u in model.units() for t in u.toks}
     for oi, (key, off, length) in loc.items():
         sp = model.spans[key]
+        lastt = tokmap.get(sp.tok_ids[-1]) if sp.tok_ids else None
+        if ops[oi]["k"] == "ins" and length == 0 and lastt is not None and lastt.kind == "insn" and lastt.ikind in ("plain", "jcc"):
+            # (only a return site is in question: after an ordinary or a
+            # conditional instruction the inserted code is simply what the
+            # block falls through to, and the patch's end takes over the
+            # fallthrough to the proxy)
+            continue
         if off + length == sp.size and sp.end_mark is not None:
             toks_u = sp.unit.toks
             i = next((k for k, t in enumerate(toks_u) if t is sp.end_mark), None)
